@@ -475,7 +475,7 @@ pub fn c06_filter_f64() {
     user_quant(4, 3);
 }
 
-//@ harness: c06_some_str tier=thorough timeout=1800 kind=main mem=28 optional=1
+//@ harness: c06_some_str tier=quick timeout=1200 kind=main mem=16
 //@ encodes: op::array::some, op::logic::truthy_from_evaluated, op::logic::truthy (Parsed::from_value replaced by its recording twin: literals parse to Raw, C02; Value::clone by the bounded model)
 //@ bound: collection [5] (literal), literal predicate v = String(<= 2 symbolic chars): the operator's decision equals the truthiness table
 #[cfg_attr(kani, kani::proof)]
@@ -514,7 +514,7 @@ pub fn c06_all_obj() {
     user_quant(9, 0);
 }
 
-//@ harness: c06_filter_obj tier=thorough timeout=1800 kind=main mem=28 optional=1
+//@ harness: c06_filter_obj tier=quick timeout=1200 kind=main mem=16
 //@ encodes: op::array::filter, op::logic::truthy_from_evaluated, op::logic::truthy (Parsed::from_value replaced by its recording twin: literals parse to Raw, C02; Value::clone by the bounded model)
 //@ bound: collection [5] (literal), literal predicate v = {}: the operator's decision equals the truthiness table
 #[cfg_attr(kani, kani::proof)]
